@@ -132,6 +132,9 @@ func (m *UnsubscribeMessage) Decode(src []byte) (int, error) {
 	m.packetID = src[total : total+2]
 	total += 2
 
+	// Decoding replaces whatever the message held before.
+	m.topics = nil
+
 	remlen := int(m.remlen) - (total - hn)
 	for remlen > 0 {
 		t, n, err := readLPBytes(src[total:])
